@@ -13,7 +13,7 @@ LEVEL = 'exploration'
 RULE = ('table: 8 settings of (want_response_signed, want_assertions_signed, want_assertions_or_response_signed) x {plain, encrypted} x '
         '{nothing signed; response signed: valid / SignatureValue corrupted / content edited after signing; assertion signed: same three; '
         'both signed: valid / each signature corrupted each way} = 192 rows, enumerated in full; generated: a row drawn uniformly + generated '
-        'name id, attribute values, message ids, hash algorithm, client loaded from SPConfig / role-neutral Config, encrypted assertions for a configured key pair / a per-request key (outstanding_certs). Non-trivial = an option is on or a signature is '
+        'name id, attribute values, message ids, hash algorithm, client loaded from SPConfig / role-neutral Config, encrypted assertions for a configured key pair / a per-request key (outstanding_certs), issuer metadata with / without a signing key, clear assertion carrying an encrypted advice assertion. Non-trivial = an option is on or a signature is '
         'present; distinct = (row, identity).')
 ASSUMPTIONS = ['xmlsec1 stand-in (DESIGN 2.1) verifies/decrypts; documents are built and signed by the harness, not by the IdP code',
                'frozen clock; response otherwise valid (destination, audience, in-response-to, validity windows)']
@@ -44,7 +44,11 @@ def run_row(case):
     wrs, was, wors = row['opts']
     ident = case.get('ident') or {}
     now = spside.NOW
-    sp = spside.sp_for({'want_response_signed': wrs, 'want_assertions_signed': was, 'want_assertions_or_response_signed': wors}, config_class=ident.get('config_class', 'sp'))
+    md = None
+    if ident.get('idp_keys', 'signing') != 'signing':
+        # the issuer is known, but its metadata holds no signing key (encryption-only descriptor / none at all): no signature of its can be verified
+        md = spside.idp_metadata(keys=(('encryption', 1),) if ident['idp_keys'] == 'encryption-only' else ())
+    sp = spside.sp_for({'want_response_signed': wrs, 'want_assertions_signed': was, 'want_assertions_or_response_signed': wors}, md=md, config_class=ident.get('config_class', 'sp'))
     clock.set_now(now)
     rid = ident.get('rid', 'id-resp-1')
     n_ass = ident.get('n', 1)
@@ -52,6 +56,14 @@ def run_row(case):
                            name_id={'text': ident.get('name', 'subject-0001'), 'format': build.TRANSIENT})
     vals = ident.get('values', ['Alice'])
     a0['attributes'] = [{'name': 'urn:oid:2.5.4.42', 'name_format': 'urn:oasis:names:tc:SAML:2.0:attrname-format:uri', 'friendly_name': 'givenName', 'values': vals}]
+    idp_keys = ident.get('idp_keys', 'signing')
+    if ident.get('enc_advice') and not row['enc']:
+        # PEFIM shape: the (clear) assertion carries an encrypted advice assertion, validly signed by the IdP and encrypted by the harness before anything is signed
+        inner = dict(a0, id=a0['id'] + '-adv', attributes=[{'name': 'urn:oid:2.5.4.12', 'name_format': 'urn:oasis:names:tc:SAML:2.0:attrname-format:uri', 'friendly_name': 'title', 'values': ['x']}])
+        inner.pop('authn', None)
+        inner['signature'] = build.sig_template(inner['id'], 'sha256', ('x509', world.cert_body(1)))
+        ix = build.sign(build.assertion_xml(inner), build.ASSERTION_NODE, inner['id'], 1)
+        a0['advice'] = '<saml:EncryptedAssertion>%s</saml:EncryptedAssertion>' % build.encrypt_raw(ix, 2, enc_id='EDADV')
     alist = [a0]
     if n_ass == 2:
         a1 = dict(a0, id=a0['id'] + '-b')
@@ -81,6 +93,8 @@ def run_row(case):
         kw['outstanding_certs'] = {'id-req-1': {'key': open(world.key(4)).read(), 'cert': open(world.crt(4)).read()}}
     verdict = spside.deliver(sp, doc, **kw)
     want = expected_accept(wrs, was, wors, 'R' in shape, 'A' in shape, corrupt is None)
+    if idp_keys != 'signing' and shape != 'none':
+        want = False        # a signature that is present cannot verify
     got = verdict[0] == 'accept'
     if got and not want:
         raise Violation('accepted-against-table', 'options wrs/was/wors=%r, %s, signed=%s, corrupted=%r: accepted, table says reject'
@@ -103,7 +117,8 @@ def generated_strategy():
                                    'values': st.lists(st.text(alphabet=st.characters(codec='utf-8', exclude_categories=('Cs', 'Cc')), min_size=1, max_size=12).map(lambda s: s.strip() or 'v'), min_size=1, max_size=3),
                                    'alg': st.sampled_from(build.HASHES), 'n': st.just(1),
                                    # the client loaded from an SPConfig or from the role-neutral Config; encrypted assertions for a configured key pair or for a per-request key
-                                   'config_class': st.sampled_from(['sp', 'sp', 'generic']), 'per_request': st.booleans()})
+                                   'config_class': st.sampled_from(['sp', 'sp', 'generic']), 'per_request': st.booleans(),
+                                   'idp_keys': st.sampled_from(['signing', 'signing', 'signing', 'encryption-only', 'none']), 'enc_advice': st.booleans()})
     return st.tuples(st.sampled_from(rows()), ident).map(lambda t: dict(t[0], ident=t[1]))
 
 
